@@ -8,6 +8,9 @@
 //     and increments currSize after storing the new entry
 //   - whether attributeCacheKey consists of a reflect.Type and the attribute name, and the key is
 //     built from the element (struct) type `objType`
+//   - whether getAttribute sends maps of any other type than map[string]interface{} to getItem before the
+//     pointer indirection (`if origType.Kind() == reflect.Map { return ctx.getItem(obj, attr) }`); the model
+//     follows this flag, so it mirrors the tree with and without that repair
 // Every missing shape sets the corresponding flag to false (and attr_consts_shape_ok to false), which
 // breaks Proofs/AttrCacheProofs.v (C20_cache_bounded and C20_cache_consts).
 package main
@@ -35,7 +38,8 @@ func isSel(e ast.Expr, x, sel string) bool {
 func genAttrConsts(g *gen) {
 	maxSize, haveMax := int64(0), false
 	pct, pctLit, havePct := 0.0, "", false
-	minOne, evictDec, evictDel, insertInc, cmpGE, keyShape, keyElem, numShape := false, false, false, false, false, false, false, false
+	keyLits, keyGood := 0, 0
+	minOne, evictDec, evictDel, insertInc, cmpGE, keyShape, keyElem, numShape, typedMaps := false, false, false, false, false, false, false, false, false
 
 	// ---- var attributeCache = struct{...}{ m: ..., maxSize: N, evictionPct: P }
 	for _, f := range g.files {
@@ -200,6 +204,20 @@ func genAttrConsts(g *gen) {
 			switch s := n.(type) {
 			case *ast.IfStmt:
 				b, ok := s.Cond.(*ast.BinaryExpr)
+				if ok && b.Op == token.EQL && isSel(b.Y, "reflect", "Map") && s.Init == nil && s.Else == nil && len(s.Body.List) == 1 {
+					// if origType.Kind() == reflect.Map { return ctx.getItem(obj, attr) }
+					if kc, ok := b.X.(*ast.CallExpr); ok && len(kc.Args) == 0 && isSel(kc.Fun, "origType", "Kind") {
+						if rs, ok := s.Body.List[0].(*ast.ReturnStmt); ok && len(rs.Results) == 1 {
+							if gc, ok := rs.Results[0].(*ast.CallExpr); ok && len(gc.Args) == 2 && isSel(gc.Fun, "ctx", "getItem") {
+								o, _ := gc.Args[0].(*ast.Ident)
+								a, _ := gc.Args[1].(*ast.Ident)
+								if o != nil && a != nil && o.Name == "obj" && a.Name == "attr" {
+									typedMaps = true
+								}
+							}
+						}
+					}
+				}
 				if !ok || !isSel(b.X, "attributeCache", "currSize") || !isSel(b.Y, "attributeCache", "maxSize") {
 					return true
 				}
@@ -249,12 +267,18 @@ func genAttrConsts(g *gen) {
 							}
 						}
 					}
-					keyElem = t && a
+					// every key literal must have this shape (a second literal built from another type would
+					// store and look up under different keys)
+					keyLits++
+					if t && a {
+						keyGood++
+					}
 				}
 			}
 			return true
 		})
 	}
+	keyElem = keyLits > 0 && keyLits == keyGood
 	if !keyElem {
 		g.fail("AttrConsts: cache key is not attributeCacheKey{typ: objType, attr: attr}")
 	}
@@ -281,10 +305,12 @@ func genAttrConsts(g *gen) {
 	fmt.Fprintf(&b, "Definition attr_insert_increments_size : bool := %s.\n", bl(insertInc))
 	fmt.Fprintf(&b, "Definition attr_key_is_type_and_name : bool := %s.\n", bl(keyShape && keyElem))
 	fmt.Fprintf(&b, "Definition attr_consts_shape_ok : bool := %s.\n", bl(shape))
+	b.WriteString("(* getAttribute hands maps of every other type than the generic one to getItem *)\n")
+	fmt.Fprintf(&b, "Definition attr_typed_maps_by_key : bool := %s.\n", bl(typedMaps))
 	g.tabs["attr_cache"] = map[string]interface{}{
 		"max_size": maxSize, "eviction_pct": pctLit, "num_to_evict_raw": raw, "evict_min_one": minOne,
 		"evict_deletes": evictDel, "evict_decrements_size": evictDec, "evict_when_size_ge_max": cmpGE,
-		"insert_increments_size": insertInc, "key_is_type_and_name": keyShape && keyElem, "shape_ok": shape,
+		"insert_increments_size": insertInc, "key_is_type_and_name": keyShape && keyElem, "shape_ok": shape, "typed_maps_by_key": typedMaps,
 	}
 	g.write("AttrConsts.v", b.String())
 }
